@@ -180,6 +180,8 @@ impl Array {
 
     fn index_or_insert(&mut self, val: &Val) -> Result<&mut Val, ValError> {
         match val {
+            // an index that saturates the cast cannot be extended to (`i + 1` would overflow)
+            Val::Number(n) if *n as usize == usize::MAX => Err(ValError::InvalidKey(val.clone())),
             Val::Number(n) => Ok(self.index_arr_or_insert(*n as usize)),
             Val::Undefined => Ok(self.index_dict_or_insert(DictKey::Undefined)),
             Val::Null => Ok(self.index_dict_or_insert(DictKey::Null)),
